@@ -77,6 +77,9 @@ type cliCase struct {
 	exists  bool
 	mread   byte
 	tag     string // generator tag for the histogram
+	// argv, when not nil, is handed to the root command as it is instead of cliArgs(cs) (stream argvend: the other
+	// fields then say what that argv MEANS, for the protocol line's environment and the direct oracle)
+	argv []string
 }
 
 type cliResult struct {
@@ -148,6 +151,9 @@ func cliClass(phase string, err error) string {
 }
 
 func cliArgs(cs cliCase) []string {
+	if cs.argv != nil {
+		return cs.argv
+	}
 	args := []string{"endorse", "--quiet"}
 	add := func(a ...string) { args = append(args, a...) }
 	if cs.uefi != "" {
